@@ -41,7 +41,7 @@ ID = "C14"
 LEVEL = "exploration"
 BUDGET = {"quick": 45, "thorough": 900}
 
-DEPLOYMENTS = [("mem", 3.0), ("jf-sym", 3.0), ("jr", 1.5), ("rdb", 0.3)]
+DEPLOYMENTS = [("mem", 3.0), ("jf-sym", 3.0), ("jr", 1.5), ("rdb", 0.8)]
 DURABLE = {"rdb", "jf-sym", "jr"}
 WRITE_SEAMS = ("fs.write", "sql.commit", "redis.eval")
 STUDY_NAME = "c14"
@@ -390,6 +390,32 @@ def gen_plan(seed: int, run: int, tier: str) -> dict:
     # the implicit last chunk (n_trials=None) may carry faults too
     tail_faults = [{"at": i, "kind": common.weighted(rng, [k for k in kinds if k[0] in ("fail", "prune")])} for i in range(nl) if rng.random() < p_fault]
     cfg = {"deployment": kind, "p_seam": 0.0, "p_line": 0.0, "snapshot_interval": rng.choice([2, 5, 100]), "read_block": rng.choice([64, 8192])}
+    hrng = common.rng_for(seed, run, "hb")  # own stream: the other draws stay as they were
+    if kind == "rdb" and kills_ok and sampler["kind"] == "brute" and nl >= 3 and hrng.random() < 0.7:
+        # heartbeat mode (DESIGN.md C14, "heartbeat recovery"): RDBStorage with heartbeats and
+        # RetryFailedTrialCallback; the objective takes virtual time; a killed worker is restarted
+        # at once (sooner than the grace period) and the resumed run must recover the dead trial
+        sampler["avoid_premature_stop"] = False
+        hbint = hrng.choice([1, 2])
+        cfg["hb"] = {"interval": hbint, "grace": hrng.choice([2 * hbint, 3 * hbint, 5]), "dur": hrng.choice([1.0, 2.5, 4.0, 6.0])}
+        for c in chunks:
+            for f in c["faults"]:
+                f.pop("after", None)
+                f.pop("in_ask", None)
+        if not any(f["kind"] == "kill" for c in chunks for f in c["faults"]):
+            if not chunks:
+                chunks.append({"n_trials": None, "stop_after": None, "faults": [], "resume": "restart"})
+            at = hrng.randrange(min(2, nl - 1) + 1)
+            c0 = chunks[0]
+            c0["faults"] = sorted([f for f in c0["faults"] if f["at"] != at] + [{"at": at, "kind": "kill"}], key=lambda f: f["at"])
+            if c0["n_trials"] is not None and c0["n_trials"] <= at:
+                c0["n_trials"] = at + 1
+            if c0["stop_after"] is not None and c0["stop_after"] <= at:
+                c0["stop_after"] = None
+        if hrng.random() < 0.8:
+            # one long resumed call: no chunk boundary (each optimize call sweeps at its start anyway)
+            first = next(i for i, c in enumerate(chunks) if any(f["kind"] == "kill" for f in c["faults"]))
+            del chunks[first + 1 :]
     return {"check": ID, "seed": seed, "run": run, "cfg": cfg, "sampler": sampler, "program": prog, "chunks": chunks, "tail_faults": tail_faults, "sched": {"seed": rng.getrandbits(48)}}
 
 
@@ -439,7 +465,12 @@ def run_plan(plan: dict) -> dict:
     kind = cfg["deployment"]
     ch = common.make_chooser(plan)
     sim = sched.Sim(ch, trace_suffixes=(), max_steps=2000000, uuid_salt=str(plan.get("run", 0)))
-    dep = deploy.Deployment(sim, kind, cfg)
+    dcfg = cfg
+    if cfg.get("hb") and kind == "rdb":
+        from optuna.storages import RetryFailedTrialCallback
+
+        dcfg = dict(cfg, heartbeat_interval=int(cfg["hb"]["interval"]), grace_period=int(cfg["hb"]["grace"]), failed_trial_callback=RetryFailedTrialCallback())
+    dep = deploy.Deployment(sim, kind, dcfg)
     try:
         return _run(plan, sim, ch, dep)
     finally:
@@ -455,6 +486,18 @@ def _make_sampler(plan: dict, seed: Any) -> Any:
         grid = {n: list(prog["grid"][n]) for n in grid_names(prog)}
         return optuna.samplers.GridSampler(grid, seed=s.get("seed"))
     return optuna.samplers.BruteForceSampler(seed=seed, avoid_premature_stop=bool(s.get("avoid_premature_stop")))
+
+
+def _wrap_beats(st: Any, beat_ids: set, dep: Any) -> None:
+    orig = st.record_heartbeat
+
+    def record_heartbeat(trial_id: int) -> None:
+        orig(trial_id)
+        beat_ids.add(trial_id)  # a heartbeat row really exists from now on
+
+    st.record_heartbeat = record_heartbeat
+    # the RDBStorage objects are pooled across runs: take the wrapper off again
+    dep._closers.append(lambda: st.__dict__.pop("record_heartbeat", None))
 
 
 def _run(plan: dict, sim: sched.Sim, ch: sched.Chooser, dep: deploy.Deployment) -> dict:
@@ -498,7 +541,11 @@ def _run(plan: dict, sim: sched.Sim, ch: sched.Chooser, dep: deploy.Deployment) 
         "next_seed": plan["sampler"].get("seed"),
         "restart": False,
         "log": [],
+        "hb_kills": [],  # heartbeat mode: {"i": index in killed_at, "t": kill time, "tid", "num"}
+        "unexcused": set(),  # indexes into killed_at: dead trials the resumed run had to recover
+        "beat_ids": set(),  # trial ids that have a heartbeat row
     }
+    hbc = cfg.get("hb") if kind == "rdb" else None
 
     def verdict(kind_: str, why: str) -> None:
         if S["verdict"] is None:
@@ -514,6 +561,8 @@ def _run(plan: dict, sim: sched.Sim, ch: sched.Chooser, dep: deploy.Deployment) 
             return set()
         out: set = set()
         for i, p in enumerate(S["killed_at"]):
+            if i in S["unexcused"]:
+                continue  # heartbeat mode: the sweep before a later trial had to fail + retry it
             ps = set((k, canon(v)) for k, v in p.items())
             others = [set((k, canon(v)) for k, v in q.items()) for q in S["paths"]] + [set((k, canon(v)) for k, v in q.items()) for j, q in enumerate(S["killed_at"]) if j != i]
             if any(ps < q for q in others):
@@ -548,6 +597,16 @@ def _run(plan: dict, sim: sched.Sim, ch: sched.Chooser, dep: deploy.Deployment) 
         def objective(trial: Any) -> float:
             i = c["started"]
             c["started"] += 1
+            if hbc:
+                # optimize() sweeps stale trials right before every ask: a trial that starts later
+                # than grace (+ one beat + clock granularity) after a worker died with a recorded
+                # heartbeat proves that the dead trial had to be failed and its retry enqueued
+                for hk in S["hb_kills"]:
+                    if hk["tid"] in S["beat_ids"] and sim.now > hk["t"] + hbc["grace"] + hbc["interval"] + 2.0 and hk["i"] not in S["unexcused"]:
+                        S["unexcused"].add(hk["i"])
+                        sim.count("hb_trial_started_after_dead_trial_went_stale")
+                if trial.system_attrs.get("failed_trial") is not None:
+                    sim.count("hb_retry_of_dead_trial_evaluated")
             if exhausted():
                 verdict("no-stop", "every leaf had been evaluated, yet optimize call #%d started another trial (number %d)" % (ci, trial.number))
                 raise _Abort()
@@ -577,7 +636,12 @@ def _run(plan: dict, sim: sched.Sim, ch: sched.Chooser, dep: deploy.Deployment) 
             if key not in leafset:
                 verdict("off-space", "evaluated combination %s is not a leaf of the program" % key)
                 raise _Abort()
+            if hbc:
+                sim.sleep(float(hbc["dur"]) if fk != "kill" else 0.3)  # the evaluation takes (virtual) time
             if fk == "kill":
+                if hbc:
+                    S["hb_kills"].append({"i": len(S["killed_at"]), "t": sim.now, "tid": trial._trial_id, "num": trial.number})
+                    sim.count("fault:kill_with_heartbeat" if trial._trial_id in S["beat_ids"] else "fault:kill_before_first_heartbeat")
                 S["killed_at"].append(dict(json.loads(key)))
                 S["evals"].append((ci, key, "kill"))
                 sim.note("eval", ci, key, "kill")
@@ -725,6 +789,11 @@ def _run(plan: dict, sim: sched.Sim, ch: sched.Chooser, dep: deploy.Deployment) 
                     optuna.copy_study(from_study_name=S["name"], from_storage=st, to_storage=st, to_study_name=new_name)
                     S["name"] = new_name
                     sim.count("resume:copy_study")
+                    for hk in S["hb_kills"]:
+                        # the copy of a dead worker's trial is RUNNING without a heartbeat row: no sweep ever
+                        # finds it, its leaf stays excused (false alarm of the first draft, replay C14-0-5180)
+                        if hk["i"] not in S["unexcused"]:
+                            hk["tid"] = None
                     sampler = _make_sampler(plan, S["next_seed"])
                     study = optuna.load_study(study_name=S["name"], storage=st, sampler=sampler)
                 elif r in ("reload", "restart"):
@@ -740,6 +809,8 @@ def _run(plan: dict, sim: sched.Sim, ch: sched.Chooser, dep: deploy.Deployment) 
     while True:
         proc = sim.proc("W%d" % life)
         st = dep.client(proc)
+        if hbc:
+            _wrap_beats(st, S["beat_ids"], dep)
         S["restart"] = False
         t = sim.spawn(proc, "w%d" % life, make_body(life, proc, st))
         status = sim.run()
@@ -784,8 +855,12 @@ def _run(plan: dict, sim: sched.Sim, ch: sched.Chooser, dep: deploy.Deployment) 
     trials = obs.get_all_trials(sid, deepcopy=False)
     fin: dict[str, int] = {}
     nrunning = 0
+    reaped = 0
+    dead_nums = {hk["num"] for hk in S["hb_kills"]}
     for tr in trials:
-        if tr.state.is_finished():
+        if tr.number in dead_nums and tr.state == TrialState.FAIL:
+            reaped += 1  # failed by the stale-trial sweep; its retry is the evaluation
+        elif tr.state.is_finished():
             k = key_of(tr.params)
             fin[k] = fin.get(k, 0) + 1
         elif tr.state == TrialState.RUNNING:
@@ -800,7 +875,9 @@ def _run(plan: dict, sim: sched.Sim, ch: sched.Chooser, dep: deploy.Deployment) 
         v = prefix + "storage-mismatch|finished trials in storage are not the leaves exactly once"
         return common.result(sim, ch, "violation", v, "finished trials read back: duplicated/foreign %s missing %s" % (extra[:3], missing[:3]) + detail_tail, nontrivial=nontrivial)
     ak = S["ask_kills"]
-    if not (S["kills"] - ak <= nrunning <= S["kills"]) or not (len(S["evals"]) - ak <= len(trials) <= len(S["evals"])):
+    if reaped:
+        sim.count("hb_dead_trials_failed_by_sweep", reaped)
+    if not (S["kills"] - ak <= nrunning + reaped <= S["kills"]) or not (len(S["evals"]) - ak <= len(trials) <= len(S["evals"])):
         v = prefix + "storage-mismatch|trial count or RUNNING count differs from the evaluations made"
         return common.result(sim, ch, "violation", v, "%d trials (%d RUNNING) in storage, %d evaluations (%d killed)" % (len(trials), nrunning, len(S["evals"]), S["kills"]) + detail_tail, nontrivial=nontrivial)
     extra = {"evals": len(S["evals"]), "leaves": nl, "optimize_calls": S["calls"], "sampler:" + skind: 1, "lives": life + 1}
